@@ -231,6 +231,12 @@ func (z *zmodemTransfer) handleZmodemStream(cmd *exec.Cmd) {
 		z.logger.writeTraceLog([]byte("zmodem begin"), "debug")
 	}
 	z.cmd.Store(cmd)
+	if z.stopped.Load() {
+		// stopped (Ctrl-C, timeout) while the helper was being launched: handleZmodemError may have
+		// missed the helper, and will not run a second time
+		_ = writeAll(z.stdin, zmodemCancelFullSequence)
+		z.ensureClientExit(cmd)
+	}
 	z.resetClientTimer()
 	z.resetServerTimer()
 
